@@ -4,15 +4,16 @@ import vlib
 from vlib import coq_hex, coq_list, coq_bool
 
 MANIFEST = {
-    "text": "Coq theorems over an executable model of the XA client (conn_xa.go autocommit path, "
-            "xa_resource_manager.go/db.go phase two on the held or a new connection) composed with the MySQL XA "
-            "state diagram: C17_legal (for all programs, fault scripts, registration refusals: every identifier's issued "
-            "commands are START stmt* END PREPARE (COMMIT|ROLLBACK) or a failure prefix ending in ROLLBACK, nothing the "
-            "server rejects), C17_accepted_legal (no fault hypothesis: never COMMIT without a successful PREPARE), "
-            "C17_ident_injective / C17_ident_roundtrip (xid-branch identifier), C17_reg_first, C17_failure. "
+    "text": "Coq theorems over an executable model of the XA client (conn_xa.go autocommit path incl. the branch timeout, pooled "
+            "connection state xaActive/isConnKept/xaBranchXid, keeper entries; xa_resource_manager.go/db.go phase two on the held or "
+            "a new connection) composed with the MySQL XA state diagram: C17_accepted_legal (for ALL programs, fault scripts, "
+            "refusals, reuse through the pool, timeouts: the commands accepted per identifier stay in START stmt* END PREPARE "
+            "(COMMIT|ROLLBACK) / failure prefix ending in ROLLBACK; never COMMIT without PREPARE), C17_legal / C17_legal_phase2 "
+            "(every fault combination of one branch / phase-two call: nothing issued is illegal), C17_ident_injective / "
+            "C17_ident_roundtrip, C17_reg_first, C17_failure, C17_timeout (+ _refuted for the listed finding). "
             "Tie: the REAL proxy driver is run over a stand-in MySQL server with the full (global) XA state machine under "
-            "enumerated single faults + seeded programs; journals, outcomes and identifier functions are compared with the "
-            "model inside Coq (vm_compute); the property's own statement is evaluated on every real run (direct oracle).",
+            "enumerated fault/reuse/timeout histories + seeded programs; journals, outcomes and identifier functions are compared with "
+            "the model inside Coq (vm_compute); the property's own statement is evaluated on every real run (direct oracle).",
     "note": "Trusted: Coq kernel + vm_compute, no axioms; harness/xarun stand-in server and coordinator stub; "
             "two-phase timeout checker switched off in the harness; explicit transactions and connection reuse are listed findings.",
     "technique": "Coq proof (induction over op lists, invariants) + differential correspondence of journals (vm_compute) + direct oracle",
@@ -55,7 +56,7 @@ def ev_term(e):
 
 def op_term(o):
     if o["k"] == "auto":
-        return "OAuto %d" % o["g"]
+        return "OAuto %d %s %s" % (o["g"], "(Some %d%%nat)" % o["target"] if o.get("reuse") else "None", coq_bool(bool(o.get("slow"))))
     if o["k"] == "local":
         return "OLocal"
     if o["k"] == "p2":
@@ -120,8 +121,12 @@ def run(chk, only=None):
         results, ident, secs = replay_scenarios(chk, only), [], 0.0
     findings = vlib.known_findings("C17")
     preds = {f["pred"] for f in findings}
-    clean = [r for r in results if not r["scenario"]["stream"].startswith("finding:")]
-    fstream = [r for r in results if r["scenario"]["stream"].startswith("finding:")]
+    # a scenario carrying the input feature of a listed finding (tags are computed by the harness from
+    # the deterministic run: reuse after a SUCCESSFUL branch, ...) belongs to the finding stream
+    def listed(r):
+        return r["scenario"]["stream"].startswith("finding:") or any(t in preds for t in (r.get("tags") or []))
+    clean = [r for r in results if not listed(r)]
+    fstream = [r for r in results if listed(r)]
     # ---- direct oracle on the clean streams
     seen = set()
     for r in clean:
@@ -163,6 +168,8 @@ def run(chk, only=None):
                 print("STALE-FINDING: property=C17 %s no longer reproduces" % f["id"])
                 chk.notes.append("stale finding " + f["id"])
         for r in fstream:
+            if not r["scenario"]["stream"].startswith("finding:"):
+                continue
             pred = r["scenario"]["stream"].split(":", 1)[1]
             if r["oracle"] and pred not in preds:
                 chk.violation("C17 fails on the real code (%s): %s" % (pred, "; ".join(r["oracle"][:2])), slim(r), True)
@@ -182,9 +189,11 @@ def run(chk, only=None):
         "distinct_nontrivial": vlib.distinct([(r["scenario"]["ops"], r["scenario"]["faults"], r["scenario"]["refuse"],
                                               r["scenario"]["version"], [(e.get("cmd"), e.get("res")) for e in r["events"] or []])
                                              for r in nontriv]),
-        "rule": "72 enumerated scenarios (one branch x every single fault position START/STMT/END/PREPARE/COMMIT/ROLLBACK, both refusal "
-                "kinds, commit/rollback, holder/stranger, server 5.7.30 and 8.0.30) + %d seeded programs (1-4 branches on fresh "
-                "connections, interleaved phase two, 0-3 faults, refusals, three server versions) + %d malformed-stream programs "
+        "rule": "72 enumerated single-branch scenarios (every single fault position START/STMT/END/PREPARE/COMMIT/ROLLBACK, both refusal "
+                "kinds, commit/rollback, holder/stranger, server 5.7.30 and 8.0.30) + 134 enumerated reuse/timeout histories (failed first "
+                "branch of every kind x second branch on the same pooled connection x phase-two order; timeouts) + %d seeded programs "
+                "(1-4 branches on fresh or pool-reused connections, slow statements, interleaved phase two incl. rollback for failed-START "
+                "branches, 0-3 faults, refusals, three server versions) + %d malformed-stream programs "
                 "(hostile xids, zero/negative branch ids, up to 6 faults, dangling/duplicate phase two) through the real XA proxy; "
                 "%d identifier cases through XaIdBuild/XaIdBuildWithByte; non-trivial = at least one XA START reached the server; "
                 "distinct by (program, faults, refusals, version, command/result sequence)" % (n, m, len(ident)),
@@ -199,9 +208,10 @@ def run(chk, only=None):
     chk.assumptions += [
         "an injected failure leaves the server state unchanged (no connection loss model inside phase one)",
         "the coordinator assigns distinct branch ids (hypothesis uniq_bid of the theorems; the generator respects it)",
-        "XA END(success) and the XA END(fail) that follows are not both made to fail (hypothesis no_double_end of C17_legal and "
-        "C17_failure; C17_accepted_legal has no such hypothesis)",
-        "two-phase timeout checker, branch timeout (xa_branch_execution_timeout) and the branch-status cache are not exercised",
+        "XA END(success) and the XA END(fail) that follows are not both made to fail (hypothesis of C17_legal and C17_failure; "
+        "C17_accepted_legal has no such hypothesis)",
+        "XA ROLLBACK of a never-started / already rolled-back branch answered XAER_NOTA is read as a no-op",
+        "two-phase timeout checker and the branch-status cache are not exercised; the branch timeout is driven through the verif hook (1 ns timeout, 2 ms statement)",
     ]
     return chk.finish()
 
